@@ -59,6 +59,13 @@ def dm_events(ctx):
             for n in (ns if (ctx.quick or pi < 40) else ns[pi % 7::7]):
                 if n >= 1:
                     ev.append(dict(op="lookup", n=n, shape=shape, mn=list(mn), mx=list(mx)))
+    # the writer end to end: digit strings of every small codeword count with size hints but WITHOUT a shape hint (equal-capacity
+    # pairs 12x12 / 8x18 and 20x20 / 12x36 are only told apart by the hints)
+    hints = [((), (18, 8)), ((16, 8), ()), ((), (36, 12)), ((), (32, 8)), ((), (26, 12)), ((), (48, 16)), ((13, 13), ()), ((), (12, 12)),
+             ((), (20, 20)), ((19, 9), (40, 14)), ((), (16, 16)), ((10, 10), (18, 18)), ((), ())]
+    for mn, mx in hints:
+        for k in ([1, 3, 5, 6, 8, 10, 12, 16, 18, 22, 23, 30, 32] if ctx.quick else range(1, 50)):
+            ev.append(dmlib.sym([48 + (i % 10) for i in range(2 * k)], shape=0, mn=mn, mx=mx, tag="choice"))
     return ev
 
 
